@@ -2,7 +2,7 @@
    The ring buffer is represented by its content; the only place the decoder sees the ring's
    geometry — the (first, end) split of Peek(3) — is the adversarial argument k. *)
 From Coq Require Import List NArith ZArith.
-From OAP Require Import Base.Bytes Base.Res Gen.Consts Model.Metadata Model.Header Model.Frame Model.Stream Model.Chunks Proofs.StreamP Proofs.ChunksP.
+From OAP Require Import Base.Bytes Base.Res Gen.Consts Model.Metadata Model.Header Model.Frame Model.Stream Model.Chunks Proofs.StreamP Proofs.ChunksP Model.Ring Proofs.RingP.
 Import ListNotations.
 Local Open Scope N_scope.
 
@@ -75,3 +75,31 @@ Print Assumptions C03_invariant_init.
 Print Assumptions C03_invariant_step.
 Print Assumptions C03_invariant_feed.
 Print Assumptions C03_consumes_exactly_body.
+
+(* THE CONCRETE RING (Model/Ring.v: the read side of the third-party ring buffer with its array, indices and empty
+   flag, following the Go text).  In every state satisfying the library's representation invariant, whatever the
+   geometry (plain, wrapped, full): Length is the content's length; Peek(n) returns exactly the first n content bytes,
+   cut into (first, end) at a point fixed by the geometry alone - the k that the theorems above quantify over;
+   Retrieve(n) drops exactly n content bytes and keeps the invariant. *)
+Theorem C03_ring_length_is_content_length : forall (g : ring Byte.byte), ring_wf g -> ring_length g = length (ring_content g).
+Proof. exact ring_length_refines. Qed.
+Theorem C03_ring_peek_is_content_prefix : forall (g : ring Byte.byte) n, ring_wf g ->
+  fst (ring_peek g n) ++ snd (ring_peek g n) = firstn n (ring_content g).
+Proof. exact ring_peek_refines. Qed.
+Theorem C03_ring_peek_split_is_geometry : forall (g : ring Byte.byte) n, ring_wf g ->
+  length (fst (ring_peek g n)) = Nat.min (Nat.min n (length (ring_content g))) (rb_size g - rb_r g).
+Proof. exact ring_peek_split. Qed.
+Theorem C03_ring_retrieve_drops_content : forall (g : ring Byte.byte) n, ring_wf g ->
+  ring_content (ring_retrieve g n) = skipn n (ring_content g) /\ ring_wf (ring_retrieve g n).
+Proof. exact ring_retrieve_refines. Qed.
+(* not vacuous: a wrapped ring of 5 cells holding 4 bytes, Peek(3) really is split 2 + 1 *)
+Example C03_ring_wrapped_example :
+  let g := mkRing [Byte.x03; Byte.x04; Byte.x00; Byte.x01; Byte.x02] 5 3 2 false in
+  ring_wf g /\ ring_content g = [Byte.x01; Byte.x02; Byte.x03; Byte.x04] /\
+  ring_peek g 3 = ([Byte.x01; Byte.x02], [Byte.x03]) /\ ring_content (ring_retrieve g 3) = [Byte.x04].
+Proof. cbv. repeat split; try reflexivity; try discriminate; repeat constructor. Qed.
+
+Print Assumptions C03_ring_length_is_content_length.
+Print Assumptions C03_ring_peek_is_content_prefix.
+Print Assumptions C03_ring_peek_split_is_geometry.
+Print Assumptions C03_ring_retrieve_drops_content.
